@@ -240,7 +240,18 @@ fn run_case(cx: &CaseCtx, rep: &mut Report) {
 	};
 	rep.count(&format!("servers_root_spelling_{spelling}"), 1);
 	let static_arg = if prefixed { format!("[/assets]{root_arg}") } else { root_arg };
-	let args = vec![tiles.display().to_string(), "-s".to_string(), static_arg];
+	let mut args = vec![tiles.display().to_string(), "-s".to_string(), static_arg];
+	// a second static mount under its own prefix: what it serves belongs to that prefix only
+	let admin_token = format!("ADMIN-ONLY-{:016x}{:016x}", rng.next_u64(), rng.next_u64());
+	let two_mounts = !tar && spelling != 3;
+	if two_mounts {
+		let private = dir.join("outer").join("private-mount");
+		let _ = std::fs::create_dir_all(private.join("sub"));
+		let _ = std::fs::write(private.join("credentials.json"), &admin_token);
+		let _ = std::fs::write(private.join("sub").join("deep.txt"), &admin_token);
+		args.push("-s".into());
+		args.push(format!("[/admin]{}", private.display()));
+	}
 	cx.progress(&format!("tar={tar} prefix={prefixed}"));
 	// spelling 3: the server's working directory is the static root itself
 	let started = if spelling == 3 { Server::start_in(&args, &root, &dir) } else { Server::start(&args, &dir) };
@@ -375,6 +386,25 @@ fn run_case(cx: &CaseCtx, rep: &mut Report) {
 		}
 		if rep.wants_sample() && esc && rng.chance(0.01) {
 			rep.sample(json!({"request_target": target.chars().take(200).collect::<String>(), "root": root_kind, "prefix": prefix, "status": r.status}));
+		}
+	}
+	if two_mounts {
+		// first through its own prefix (legitimate), then through the other mount's paths
+		let own = http::get(server.port, "/admin/credentials.json", &[]);
+		let own2 = http::get(server.port, "/admin/sub/deep.txt", &[]);
+		rep.count("second_mount_requests", 2);
+		if !(own.complete && own.status == 200 && own.decoded_body().map(|b| String::from_utf8_lossy(&b).contains(&admin_token)).unwrap_or(false) && own2.status == 200) {
+			rep.note("the second static mount did not serve its own file");
+		}
+		for t in ["/credentials.json", "/sub/deep.txt", "/assets/credentials.json", "/assets/sub/deep.txt", "//credentials.json", "/./credentials.json", "/sub/../credentials.json"] {
+			let r = http::get(server.port, t, &[]);
+			rep.eval();
+			rep.count("second_mount_requests", 1);
+			let leaked = r.decoded_body().map(|b| String::from_utf8_lossy(&b).contains(&admin_token)).unwrap_or(false) || String::from_utf8_lossy(&r.body).contains(&admin_token);
+			if leaked {
+				rep.violation("folder|content-of-another-mount-served", "a file that exists only in the mount under /admin was served under another path", json!({"request_target": t, "status": r.status, "server_args": args.iter().filter(|a| a.starts_with('[')).collect::<Vec<_>>()}));
+				break;
+			}
 		}
 	}
 	drop(server);
